@@ -40,6 +40,8 @@ def eps(t):
 
 
 RAW = attr("_raw_text")
+# the remainder after the *first* bar that closes the specifier opened by '.|' (forward search, never rfind)
+AFTER_FIRST_BAR = __import__("re").compile(r"^(?P<T>.+)\[(?P=T)\.find\('\|', (?P=T)\.find\('\.\|'\) \+ [23]\) \+ 1:\]\.strip\(\)$")
 
 # (role id, function, mode, expected rejection predicate, placeholders, what is rejected)
 ROLES = [
@@ -91,7 +93,7 @@ ROLES = [
      "descriptor bookkeeping mismatch"),
     # ---- molecule
     ("mol-text-after-mixture", "molecule.Molecule.__init__", "implies",
-     "T.find('.|') >= 0 and len(E) > 0", {"T": None, "E": S(".strip()", "find('|'")}, "text after the mixture specifier"),
+     "T.find('.|') >= 0 and len(E) > 0", {"T": None, "E": lambda t: AFTER_FIRST_BAR.match(src(t)) is not None}, "text after the mixture specifier"),
     ("mol-connector-descriptor", "molecule.Molecule.__init__", "site",
      "A.descriptor != O.descriptor or A.descriptor_id != O.descriptor_id or A.bond_type != O.bond_type",
      {"A": S("bond_descriptors[0]"), "O": name()},
